@@ -3,12 +3,22 @@
 package compact
 
 import (
+	"bytes"
 	"context"
+	"encoding/json"
 	"fmt"
 	"os"
+	"path"
 	"sync"
 	"testing"
 	"time"
+
+	"github.com/go-kit/log"
+	"github.com/oklog/ulid/v2"
+	"github.com/thanos-io/objstore"
+
+	"github.com/thanos-io/thanos/pkg/block"
+	"github.com/thanos-io/thanos/pkg/block/metadata"
 
 	"github.com/thanos-io/thanos/pkg/verifhook/vfkit"
 )
@@ -42,11 +52,12 @@ func TestVF_C33(t *testing.T) {
 		"then for every r <= R and error kind {transient error, context deadline exceeded} a fresh compactor runs the cycle on a fresh copy of the state with the r-th sync read failing once; " +
 		"oracle: no mutating bucket operation (upload, delete) is applied after the failed read in that cycle; distinct = (state, r, kind); non-trivial = the fault was injected and the fault-free run " +
 		"performed destructive work after its r-th read")
-	nsets := r.N(3, 100)
+	nsets := r.N(3, 12)
 	r.Assume("production wiring is mirrored from cmd/thanos/compact.go: fetcher and marker filters are the only readers of the sync view; concurrency 1")
 	r.Assume("a not-found answer is not a read failure (it is indistinguishable from absence) and is not injected")
 	ctx := context.Background()
 	scratch := t.TempDir()
+	fmt.Println("VF-INFLIGHT C33 compaction cycles with one failing metadata-sync read")
 	for c := 0; c < nsets; c++ {
 		if !r.Want(c) {
 			continue
@@ -63,7 +74,7 @@ func TestVF_C33(t *testing.T) {
 		run := func(failRead int, kind vfc33Kind) (*vfcfbCore, error) {
 			core := vfcrigRestore(ctx, snap)
 			vfcrigCopyLastMod(core0, core)
-			core.failReadSeq, core.failReadErr = failRead, kind.err
+			core.armReadFault(failRead, kind.err)
 			cctx, cancel := context.WithTimeout(ctx, 5*time.Minute)
 			defer cancel()
 			dir, err := os.MkdirTemp(scratch, "run")
@@ -142,7 +153,7 @@ func TestVF_C33(t *testing.T) {
 						continue
 					}
 					ops := core.ops()
-					failed := core.failedRead
+					failed := core.failedReadOp()
 					r.Eval(1)
 					if failed == nil {
 						r.Count("fault_not_reached", 1)
@@ -184,4 +195,69 @@ func vfc33OpsFrom(ops []vfcfbOp, seq int) []vfcfbOp {
 		}
 	}
 	return nil
+}
+
+// TestVF_C33L (second part of check C33) drives the metadata sync alone - real MetaFetcher with the ConcurrentLister, the production
+// default - over a bucket of 24 blocks with one failing "meta.json exists" read, many times. A sync whose read failed must report an
+// error (otherwise the compactor is handed an incomplete view as complete); the part runs in its own process so that the race detector
+// and a crash of the process can observe the lister's error path, which the compaction cycles of part one reach only a few times.
+func TestVF_C33L(t *testing.T) {
+	r := vfkit.Start(t, "C33")
+	defer r.Finish()
+	r.Rule("case = one metadata sync (real MetaFetcher, ConcurrentLister, concurrency 4) over 24 blocks in which the k-th 'meta.json exists' read fails once (k = 1..24, repeated); " +
+		"oracle: the sync reports an error (an incomplete view is never returned as complete) and the process survives; distinct = k x error kind")
+	n := r.N(96, 960)
+	r.Require(int64(n), 24)
+	ctx := context.Background()
+	fmt.Println("VF-INFLIGHT C33 metadata sync (ConcurrentLister) with a failing meta.json exists read")
+	core := vfcfbNew()
+	setup := core.view("setup", false)
+	rng := r.RandS("lister", 0)
+	for i := 0; i < 24; i++ {
+		id := vfcfbULID(rng, uint64(1_700_000_000_000+i))
+		if err := vfc33PutMeta(ctx, setup, id); err != nil {
+			t.Fatalf("rig: %v", err)
+		}
+	}
+	for i := 0; i < n; i++ {
+		if !r.Want(i) {
+			continue
+		}
+		kind := vfc33Kinds[(i/24)%2]
+		core.reset()
+		core.armReadFault(2+i%24, kind.err) // read 1 is the listing, reads 2..25 are the exists calls
+		ins := objstore.WithNoopInstr(core.view("sync", true))
+		f, err := block.NewMetaFetcher(log.NewNopLogger(), 4, ins, block.NewConcurrentLister(log.NewNopLogger(), ins), "", nil, nil)
+		if err != nil {
+			t.Fatalf("rig: %v", err)
+		}
+		_, _, err = f.Fetch(ctx)
+		r.Eval(1)
+		failed := core.failedReadOp()
+		if failed == nil {
+			r.Count("fault_not_reached", 1)
+			continue
+		}
+		r.Distinct(fmt.Sprintf("%d|%s", i%24, kind.name))
+		r.Sample(map[string]any{"failed_read": failed, "error_kind": kind.name, "sync_error": fmt.Sprint(err)})
+		if err == nil {
+			r.Violation(i, "sync-reports-success-after-failed-read:"+failed.Kind+"/"+failed.Class,
+				fmt.Sprintf("metadata sync returned no error although read %s %s failed with %s", failed.Kind, failed.Name, kind.name), map[string]any{"failed_read": failed, "error_kind": kind.name})
+		}
+	}
+}
+
+func vfc33PutMeta(ctx context.Context, bkt objstore.Bucket, id ulid.ULID) error {
+	var m metadata.Meta
+	m.Version = 1
+	m.ULID = id
+	m.MinTime, m.MaxTime = 0, 1000
+	m.Compaction.Level = 1
+	m.Compaction.Sources = []ulid.ULID{id}
+	m.Thanos.Labels = map[string]string{"e": "1"}
+	var buf bytes.Buffer
+	if err := json.NewEncoder(&buf).Encode(&m); err != nil {
+		return err
+	}
+	return bkt.Upload(ctx, path.Join(id.String(), metadata.MetaFilename), &buf)
 }
